@@ -210,6 +210,9 @@ theorem invD_step {k : Nat} {s s' : St V} {l : Label V} (ha : InvA k s) (hi : In
   | cCtx =>
     obtain ⟨hp, rfl⟩ := step_cCtx h
     exact ⟨by simp, hi.wg⟩
+  | cExpire =>
+    obtain ⟨hp, rfl⟩ := step_cExpire h
+    exact ⟨by simp, hi.wg⟩
   | cClose =>
     obtain ⟨hp, rfl⟩ := step_cClose h
     exact ⟨by simp, hi.wg⟩
@@ -359,6 +362,7 @@ theorem step_class {s s' : St V} {l : Label V} (ho : s.origin = .plainCancel) (h
   | cCall live => obtain ⟨hp, rfl⟩ := step_cCall h; exact .inr (.inr (.inl hp))
   | cEnd => obtain ⟨live, hp, _, rfl⟩ := step_cEnd h; exact .inr (.inl ⟨live, hp⟩)
   | cCtx => obtain ⟨hp, rfl⟩ := step_cCtx h; exact .inr (.inl ⟨false, hp⟩)
+  | cExpire => obtain ⟨hp, rfl⟩ := step_cExpire h; exact .inr (.inl ⟨true, hp⟩)
   | cClose => obtain ⟨hp, rfl⟩ := step_cClose h; exact .inr (.inr (.inl hp))
   | cCloseStep =>
     rcases step_cCloseStep h with ⟨rest, hp, rfl⟩ | ⟨rest, hp, rfl⟩ | ⟨rest, hp, _, rfl⟩
